@@ -766,6 +766,15 @@ func init() {
 		Variant{Name: "benign: receiver loop written with an explicit break on the latch", Property: "C02", File: pst, Benign: true,
 			Old: "\tfor !shutdownChan.IsShutdown() {\n\t\tresp, err := sourceStreamClient.Recv()\n", New: "\tfor {\n\t\tif shutdownChan.IsShutdown() {\n\t\t\tbreak\n\t\t}\n\t\tresp, err := sourceStreamClient.Recv()\n"},
 	)
+	// ---- same-typed shard ids in the wrong role (O8.17 / O1.13 / O3.14 / O5.9)
+	addVariants(
+		Variant{Name: "receiver registers its ack channel under its target shard", Property: "C08", File: pst,
+			Old: "\t\tr.shardManager.SetLocalAckChan(r.sourceShardID, r.ackChan)\n", New: "\t\tr.shardManager.SetLocalAckChan(r.targetShardID, r.ackChan)\n", Expect: "O8.17"},
+		Variant{Name: "task message attributed to the receiver's target shard", Property: "C01", File: pst,
+			Old: "\t\t\t\t\tmsg := RoutedMessage{\n\t\t\t\t\t\tSourceShard: r.sourceShardID,\n", New: "\t\t\t\t\tmsg := RoutedMessage{\n\t\t\t\t\t\tSourceShard: r.targetShardID,\n", Expect: "O1.13"},
+		Variant{Name: "intra-proxy sender registered with (source, target) swapped", Property: "C08", File: ipr,
+			Old: "\ts.shardManager.GetIntraProxyManager().RegisterSender(s.peerNodeName, s.targetShardID, s.sourceShardID, s)\n", New: "\ts.shardManager.GetIntraProxyManager().RegisterSender(s.peerNodeName, s.sourceShardID, s.targetShardID, s)\n", Expect: "O8.17"},
+	)
 	// ---- swallowed errors and retained state (general rules)
 	addVariants(
 		Variant{Name: "blob repair error logged and dropped", Property: "C17", File: refl,
